@@ -38,23 +38,30 @@ func (o *vmOracle) GetFinalizedStateRoot() ([]byte, error) { return nil, vhErr }
 
 var vhErr = storage.ErrContentNotFound
 
-// State storage Put with a peer-chosen key (0..K bytes) and content (0..L bytes): the real ztyp
-// decoders run on the symbolic bytes; keccak is an uninterpreted function.
+// The state pipeline for offered / looked-up items (state/network.go): a peer-chosen key (0..K
+// bytes) and content (0..L bytes) are validated and, only when the validator accepts them, handed
+// to Storage.Put: the real ztyp decoders run on the symbolic bytes in both; keccak is an
+// uninterpreted function, node decoding and account decoding have arbitrary outcomes.
 //
 //verif:harness C01.state_storage_put unwind=90
 //verif:exec github.com/protolambda/ztyp/codec github.com/protolambda/ztyp/view github.com/protolambda/zrnt/eth2/beacon/common
 //verif:uf github.com/ethereum/go-ethereum/crypto.Keccak256
-//verif:param K=70/72 L=12/40
+//verif:stub havoc github.com/zen-eth/shisui/state/trie.DecodeTrieNode github.com/ethereum/go-ethereum/core/types.FullAccount
+//verif:param K=70/72 L=44/52
 func vhC01StateStoragePut() {
 	key := vsBytes("key", vsParam("K"))
 	content := vsBytes("content", vsParam("L"))
+	v := &StateValidator{validationOracle: &vmOracle{}}
+	if v.ValidateContent(key, content) != nil {
+		vsCover("rejected-by-validator")
+		return
+	}
 	s := &Storage{store: &vmStore{}}
 	err := s.Put(key, vsBytesN("id", 32), content)
 	if err != nil {
-		vsCover("rejected")
-	}
-	if len(key) == 0 {
-		vsCover("empty-key")
+		vsCover("rejected-by-storage")
+	} else {
+		vsCover("stored")
 	}
 }
 
